@@ -558,8 +558,9 @@ def r8_raw_chunk_untouched(ctx):
 
 from .c03 import r2_header_once as _header_once      # the BAM header is replayed once, before any record, also when the first table is empty
 
-from ..through_time import make_rule as _mk_tt
+from ..through_time import make_rule as _mk_tt, make_t2 as _mk_t2
 _through_time = _mk_tt("C16")
+_small_edits = _mk_t2("C16")
 
 def _chunk_carry_over(ctx):
     from .c01 import r2_carry_over
@@ -580,6 +581,7 @@ RULES = [
     ("C16-R8", r8_raw_chunk_untouched),
     ("C16-R9", _header_once),
     ("C16-T1", _through_time),
+    ("C16-T2", _small_edits),
     ("C16-R10", _chunk_carry_over),
     ("C16-R11", _uniformity_shortcuts),
 ]
